@@ -713,10 +713,14 @@ class Inliner(object):
         # few times - may have up to four)
         # few times inside one routine - may have up to four)
         sites = self.call_sites(callee)
-        tiny = callee.name.startswith('_') and \
-            _count_stmts(callee.raw.body) <= 6 and \
-            self._one_caller.get(callee.fq, False)
-        if sites > (4 if tiny else 2):
+        small = callee.name.startswith('_') and \
+            _count_stmts(callee.raw.body) <= 6
+        tiny = small and self._one_caller.get(callee.fq, False)
+        # ... and a wrapper of two or three statements extracted from
+        # several routines of the module (take the instance off and release
+        # its identity; delete the record of a placement) up to six
+        shared = small and _count_stmts(callee.raw.body) <= 3
+        if sites > (6 if shared else 4 if tiny else 2):
             return None
         raw = callee.raw
         args = raw.args
@@ -741,6 +745,35 @@ class Inliner(object):
             name = ast.unparse(deco)
             if name not in ('staticmethod', 'classmethod'):
                 return None
+        return callee
+
+    def unique_method(self, caller, call):
+        """`obj.m(..)` on a receiver other than self: the method when the
+        caller's module defines `m` in exactly one class family (one
+        definition, or overrides along one inheritance chain are not
+        accepted - exactly one def) and no other module of the package
+        defines a method of that name."""
+        fexpr = call.func
+        if not isinstance(fexpr, ast.Attribute) or isinstance(
+                fexpr.value, ast.Constant):
+            return None
+        name = fexpr.attr
+        key = ('um', name)
+        if key not in self._sites:
+            found = []
+            for mod in list(self.index.modules.values()):
+                if ('def %s(' % name) not in mod.source:
+                    continue
+                for cls in mod.classes.values():
+                    func = cls.methods.get(name)
+                    if func is not None:
+                        found.append(func)
+                if name in mod.functions:
+                    found.append(None)      # also a plain function: unsure
+            self._sites[key] = found[0] if len(found) == 1 else None
+        callee = self._sites[key]
+        if callee is None or callee.module is not caller.module:
+            return None
         return callee
 
     def is_vector_helper(self, callee):
@@ -1196,6 +1229,8 @@ class Inliner(object):
             def visit_Call(self, node):
                 node = self.generic_visit(node)
                 callee = inliner.resolve(caller, node)
+                if callee is None:
+                    callee = inliner.unique_method(caller, node)
                 if callee is None or callee is caller or \
                         callee.fq in stack or \
                         callee.name in vocabulary() or \
@@ -1224,15 +1259,29 @@ class Inliner(object):
                 if params and params[0] in ('self', 'cls') and \
                         isinstance(node.func, ast.Attribute) and \
                         callee.cls is not None:
+                    other = None
                     if ast.unparse(node.func.value) != params[0]:
-                        return node
-                    # the receiver is the caller's own first parameter,
-                    # never rebound: it means the same object in E
-                    cargs = caller.raw.args.posonlyargs + caller.raw.args.args
-                    if cargs and cargs[0].arg == params[0] and \
-                            params[0] not in _stored_names(caller.raw.body):
-                        receiver = params[0]
+                        # another object of the class (resolved because the
+                        # method name is unique in the package): a plain
+                        # name or attribute chain stands for `self` in E
+                        if not _simple_arg(node.func.value) or isinstance(
+                                node.func.value, ast.Constant):
+                            return node
+                        other = (params[0], node.func.value)
+                    else:
+                        # the receiver is the caller's own first parameter,
+                        # never rebound: it means the same object in E
+                        cargs = caller.raw.args.posonlyargs + \
+                            caller.raw.args.args
+                        if cargs and cargs[0].arg == params[0] and \
+                                params[0] not in _stored_names(
+                                    caller.raw.body):
+                            receiver = params[0]
                     params = params[1:]
+                    if other is not None:
+                        params = [other[0]] + params
+                        node = copy.copy(node)
+                        node.args = [other[1]] + list(node.args)
                 bound = dict(zip(params, node.args))
                 for kw in node.keywords:
                     bound[kw.arg] = kw.value
